@@ -267,6 +267,128 @@ fn random_env(rng: &mut Rng) -> Env {
     env
 }
 
+// ---------------------------------------------------------------------------------------------
+// Deep stream: chains of depth 100 .. 3000.  The three clauses of the property are decided in the
+// harness (a 3000-deep literal is not something to feed to Coq's parser); the whole stream runs
+// in a thread with a 1 GiB stack so that recursion in the real code cannot kill the harness.
+
+fn deep_chain(shape: usize, depth: usize) -> E {
+    // leaves cycle through supplied variables / cells
+    let leaf = |k: usize| match k % 5 {
+        0 => E::Var(0),
+        1 => E::Addr(0, (k % 3) as u64),
+        2 => E::Var(1),
+        3 => E::Addr(1, ((k / 5) % 3) as u64),
+        _ => E::Num(0.5, 0.0),
+    };
+    let ops = [Op::Plus, Op::Star, Op::Minus, Op::Plus];
+    let mut e = leaf(0);
+    for k in 1..=depth {
+        e = match shape {
+            // left-nested infix
+            0 => E::infix(e, ops[k % 4], leaf(k)),
+            // right-nested infix
+            1 => E::infix(leaf(k), ops[k % 4], e),
+            // prefix / function chain
+            2 => match k % 3 {
+                0 => E::neg(e),
+                1 => E::fnc(F::Sin, e),
+                _ => E::pos(e),
+            },
+            // alternating infix left / function / infix right / prefix
+            _ => match k % 4 {
+                0 => E::infix(e, ops[(k / 4) % 4], leaf(k)),
+                1 => E::fnc(F::Cos, e),
+                2 => E::infix(leaf(k), ops[(k / 4) % 4], e),
+                _ => E::neg(e),
+            },
+        };
+    }
+    e
+}
+
+fn deep_stream(run: &mut Run, mutant: u32) -> u64 {
+    let mut n = 0u64;
+    let full = Env {
+        rv: vec![(0, RV_VAL[0]), (1, RV_VAL[1])],
+        rm: vec![(0, CELLS[0].to_vec()), (1, CELLS[1].to_vec())],
+        sg: vec![(1, SG_VAL[1])],
+    };
+    let only_subst = Env { rv: vec![(0, RV_VAL[0])], rm: full.rm.clone(), sg: vec![(1, SG_VAL[1])] };
+    let missing_var = Env { rv: vec![(0, RV_VAL[0])], rm: full.rm.clone(), sg: vec![] };
+    let short_region = Env { rv: full.rv.clone(), rm: vec![(0, CELLS[0].to_vec()), (1, CELLS[1][..2].to_vec())], sg: vec![] };
+    let envs = [("full", &full), ("only-subst", &only_subst), ("missing-var", &missing_var), ("short-region", &short_region)];
+    for depth in [100usize, 255, 256, 257, 300, 1000, 3000] {
+        for shape in 0..4 {
+            let e = deep_chain(shape, depth);
+            let ex = to_impl(&e);
+            let mut addrs = Vec::new();
+            e.addrs(&mut addrs);
+            let mut vars = Vec::new();
+            e.vars(&mut vars);
+            let desc = format!("deep chain shape {shape} depth {depth} ({} nodes, {} address leaves)", e.size(), addrs.len());
+            // memory references: exactly the address leaves, in order
+            let mut mrefs: Vec<(usize, u64)> = ex
+                .memory_references()
+                .map(|m| (REGION_NAMES.iter().position(|x| *x == m.name).unwrap_or(99), m.index))
+                .collect();
+            if mutant == 1 {
+                mrefs.reverse();
+            }
+            n += 1;
+            if mrefs != addrs {
+                run.process_failure("memory_references() is not the list of address leaves in order", &desc, None);
+            }
+            for (ename, env) in envs {
+                let rv: HashMap<String, Complex64> = env
+                    .rv
+                    .iter()
+                    .map(|(x, (re, im))| (VAR_NAMES[*x].to_string(), Complex64::new(*re, *im)))
+                    .collect();
+                let rm: HashMap<String, Vec<f64>> =
+                    env.rm.iter().map(|(r, c)| (REGION_NAMES[*r].to_string(), c.clone())).collect();
+                let sg: HashMap<String, Expression> = env
+                    .sg
+                    .iter()
+                    .map(|(x, (re, im))| (VAR_NAMES[*x].to_string(), Expression::Number(Complex64::new(*re, *im))))
+                    .collect();
+                let mut union = rv.clone();
+                for (x, (re, im)) in &env.sg {
+                    union.insert(VAR_NAMES[*x].to_string(), Complex64::new(*re, *im));
+                }
+                let supplied = |vs: &HashMap<String, Complex64>| {
+                    vars.iter().all(|x| vs.contains_key(VAR_NAMES[*x]))
+                        && addrs.iter().all(|(r, i)| rm.get(REGION_NAMES[*r]).map_or(false, |c| (*i as usize) < c.len()))
+                };
+                let ev = ex.evaluate(&rv, &rm);
+                let sub = ex.substitute_variables(&sg);
+                let ev_sub = sub.evaluate(&rv, &rm);
+                let ev_union = ex.evaluate(&union, &rm);
+                n += 1;
+                run.count(&format!("deep={}", if ev.is_ok() { "Ok" } else { "Err" }));
+                if ev.is_ok() != supplied(&rv) {
+                    run.process_failure(
+                        &format!("evaluate returned {} although everything needed is {}supplied", if ev.is_ok() { "Ok" } else { "Err" }, if supplied(&rv) { "" } else { "NOT " }),
+                        &format!("{desc}, env {ename}"),
+                        None,
+                    );
+                }
+                if ev_union.is_ok() != supplied(&union) {
+                    run.process_failure("evaluate (union environment) Ok/Err does not match 'everything supplied'", &format!("{desc}, env {ename}"), None);
+                }
+                if !same_bits(&ev_sub, &ev_union) {
+                    run.process_failure("substitute-then-evaluate differs from evaluate-with-binding", &format!("{desc}, env {ename}"), None);
+                }
+            }
+            // depth 100 is also shipped to Coq (model vs implementation)
+            if depth == 100 {
+                run_case(run, &e, &full, mutant);
+            }
+        }
+    }
+    n
+}
+
 fn main() {
     let args = Args::parse();
     let mutant = exprgen::mutant();
@@ -342,15 +464,32 @@ fn main() {
         let env = random_env(&mut rng);
         run_case(&mut run, &e, &env, mutant);
     }
+    // (4) deep chains, in a thread with a large stack
+    let ndeep = std::thread::scope(|sc| {
+        std::thread::Builder::new()
+            .stack_size(1 << 30)
+            .spawn_scoped(sc, || deep_stream(&mut run, mutant))
+            .expect("spawn")
+            .join()
+    });
+    let ndeep = match ndeep {
+        Ok(n) => n,
+        Err(_) => {
+            run.process_failure("the deep stream panicked", "deep chains", None);
+            0
+        }
+    };
     run.finish(
         "exhaustive: every expression tree of depth <= 3 with at most N nodes (N = extra.full_nodes) over \
          {2, -1.25+0.5i, pi, %x, %y, a[0], a[2], b[1]; sin, sqrt, prefix -, prefix +; ^ + - / *} paired with \
          every partial assignment over the names it mentions (variable unbound / bound / substituted / both; \
          region absent or of length 0..3); trees with N+1 nodes with two sampled assignments; seeded random \
-         trees of depth <= 5 with random assignments. Distinct by (tree, assignment); non-trivial = the tree \
+         trees of depth <= 5 with random assignments; deep chains (left-nested, right-nested, prefix/function and \
+         alternating, depth 100..3000) under a full, a substitution-only, a missing-variable and a short-region \
+         environment, judged in the harness (depth 100 also in Coq). Distinct by (tree, assignment); non-trivial = the tree \
          mentions at least one variable or address.",
         true,
         serde_json::json!({"full_nodes": full_nodes, "exhaustive_trees": ntrees, "exhaustive_cases": exhaustive_cases,
-                           "next_size_trees": sampled_trees, "random_cases": nrand, "mutant": mutant}),
+                           "next_size_trees": sampled_trees, "random_cases": nrand, "deep_checks": ndeep, "mutant": mutant}),
     );
 }
